@@ -38,7 +38,7 @@ CHECKS = {
              "one placeholder whose count k is exactly the number removed, a positive multiple of 200, then 100..300 leaf frames verbatim; kept + elided = depth; "
              "output <= 501), C14_limit_char (the iterator for any n, hint and stream), C14_limit_constant (the regenerated source constant is 200) and "
              "C14_checker_accepts_model. Tied to the code by driving ProcessSampleData::flush_samples_to_profile (samply/src/shared compiled in by #[path]) with "
-             "multi-sample flushes and evaluating the property-text checker inside Coq on the serialized stacks. F-C14 (marker counted in the hint) was found, fixed and stays in corpus/C14.",
+             "multi-sample flushes, and end to end by converting perf.data recordings whose call chains have the same depths with `samply import`, evaluating the property-text checker inside Coq on the serialized stacks. F-C14 (marker counted in the hint) was found, fixed and stays in corpus/C14.",
         note="Trusted: Coq kernel; harness h_samply and its JSON read-back; tools/consts.py. Not covered: JS/ART label insertion (more frames than the hint).",
         technique="Coq proof (characterisation of the three-state iterator by induction, arithmetic by lia) + differential correspondence run with the property-text checker evaluated by vm_compute",
         design="4/C14"),
